@@ -62,6 +62,7 @@ struct Op {
     std::vector<WaitSpec> waits;   // wait/cancel: per rank
     std::map<std::string, std::string> hints;  // create/open: MPI_Info hints
     int only_rank = -1;            // op executed by just this rank (independent-mode ops); -1 = all
+    int alt_rank = -1; std::string alt_name; long long alt_val = 0;   // C08 safe mode: on rank alt_rank a collective metadata call gets this name (if not empty) / value instead (disagreeing arguments)
     // ---- annotator
     bool skip = false;             // not legal in the current model state: nobody executes it
     int exp_rc = 0; bool rc_any = false;
